@@ -127,7 +127,8 @@ Adopt(cs, ob) ==
 \* ============================ Part 2: the state machine ===================================
 CONSTANTS NC,        \* number of contexts
           MAXN,      \* history length bound (CONSTRAINT)
-          Vals       \* values written (model checking: a small set; the enumeration uses the position)
+          Vals,      \* values written (model checking: a small set; the enumeration uses the position)
+          MCKinds    \* the kinds enabled in this run (the whole catalogue, or a sub-catalogue with more values)
 Ctxs == 1..NC
 \* two contexts with different limits (ticks of the virtual clock, bytes), a third for long histories
 LimitsOf(c) == CASE c = 1 -> [t |-> 500, m |-> 10000] [] c = 2 -> [t |-> 1500, m |-> 20000]
@@ -152,7 +153,7 @@ TwinStep(c, kd, x) ==     \* the twin runs the error-free variant (nothing at al
 
 \* Context.eval: parse + compile first (a syntax error leaves before any VM exists) ...
 Begin(c, kd, x) ==
-  /\ pc.m = "idle" /\ Guard(kd, ctx[c])
+  /\ pc.m = "idle" /\ kd \in MCKinds /\ Guard(kd, ctx[c])
   /\ actor' = c
   /\ IF ~Prog(kd, x, ctx[c]).parses
      THEN /\ last' = "syntax" /\ evn' = evn + 1 /\ twin' = TwinStep(c, kd, x)
@@ -180,30 +181,49 @@ Exit ==
   /\ pc' = Idle /\ evn' = evn + 1 /\ actor' = pc.c
 
 \* one named action per snippet kind, so that -coverage shows every kind firing
-EvalDefVar(c)    == \E x \in Vals : Begin(c, "defvar", x)
-EvalDefFun(c)    == \E x \in Vals : Begin(c, "deffun", x)
-EvalAssign(c)    == \E x \in Vals : Begin(c, "assign", x)
-EvalDelete(c)    == Begin(c, "delete", 0)
-EvalMutObjProto(c) == \E x \in Vals : Begin(c, "mut_objproto", x)
-EvalMutMath(c)   == \E x \in Vals : Begin(c, "mut_math", x)
-EvalMutArrProto(c) == \E x \in Vals : Begin(c, "mut_arrproto", x)
-EvalMutStrCtor(c) == \E x \in Vals : Begin(c, "mut_strctor", x)
-EvalMutErrProto(c) == \E x \in Vals : Begin(c, "mut_errproto", x)
-EvalThrow(c)     == \E x \in Vals : Begin(c, "throw", x)
-EvalLoop(c)      == \E x \in Vals : Begin(c, "loop", x)
-EvalRecurse(c)   == \E x \in Vals : Begin(c, "recurse", x)
-EvalSyntax(c)    == Begin(c, "syntax", 0)
-EvalIndirect(c)  == \E x \in Vals : Begin(c, "ieval", x)
-EvalIndirectLoop(c) == \E x \in Vals : Begin(c, "ieval_loop", x)
-EvalNewFunction(c) == Begin(c, "newfn", 0)
-EvalRead(c)      == Begin(c, "read", 0)
+EvalDefVar(c) == /\ pc.m = "idle"
+                  /\ \E x \in Vals : Begin(c, "defvar", x)
+EvalDefFun(c) == /\ pc.m = "idle"
+                  /\ \E x \in Vals : Begin(c, "deffun", x)
+EvalAssign(c) == /\ pc.m = "idle"
+                  /\ \E x \in Vals : Begin(c, "assign", x)
+EvalDelete(c) == /\ pc.m = "idle"
+                  /\ Begin(c, "delete", 0)
+EvalMutObjProto(c) == /\ pc.m = "idle"
+                       /\ \E x \in Vals : Begin(c, "mut_objproto", x)
+EvalMutMath(c) == /\ pc.m = "idle"
+                   /\ \E x \in Vals : Begin(c, "mut_math", x)
+EvalMutArrProto(c) == /\ pc.m = "idle"
+                       /\ \E x \in Vals : Begin(c, "mut_arrproto", x)
+EvalMutStrCtor(c) == /\ pc.m = "idle"
+                      /\ \E x \in Vals : Begin(c, "mut_strctor", x)
+EvalMutErrProto(c) == /\ pc.m = "idle"
+                       /\ \E x \in Vals : Begin(c, "mut_errproto", x)
+EvalThrow(c) == /\ pc.m = "idle"
+                 /\ \E x \in Vals : Begin(c, "throw", x)
+EvalLoop(c) == /\ pc.m = "idle"
+                /\ \E x \in Vals : Begin(c, "loop", x)
+EvalRecurse(c) == /\ pc.m = "idle"
+                   /\ \E x \in Vals : Begin(c, "recurse", x)
+EvalSyntax(c) == /\ pc.m = "idle"
+                  /\ Begin(c, "syntax", 0)
+EvalIndirect(c) == /\ pc.m = "idle"
+                    /\ \E x \in Vals : Begin(c, "ieval", x)
+EvalIndirectLoop(c) == /\ pc.m = "idle"
+                        /\ \E x \in Vals : Begin(c, "ieval_loop", x)
+EvalNewFunction(c) == /\ pc.m = "idle"
+                       /\ Begin(c, "newfn", 0)
+EvalRead(c) == /\ pc.m = "idle"
+                /\ Begin(c, "read", 0)
 HostStep(c, kd, x) ==
-  /\ pc.m = "idle"
+  /\ pc.m = "idle" /\ kd \in MCKinds
   /\ ctx' = [ctx EXCEPT ![c] = RunEvent(ctx[c], kd, x).st]
   /\ twin' = [twin EXCEPT ![c] = RunEvent(twin[c], kd, x).st]
   /\ evn' = evn + 1 /\ actor' = c /\ last' = "value" /\ UNCHANGED pc
-Set(c) == \E x \in Vals : HostStep(c, "set", x)
-Get(c) == HostStep(c, "get", 0)
+Set(c) == /\ pc.m = "idle"
+           /\ \E x \in Vals : HostStep(c, "set", x)
+Get(c) == /\ pc.m = "idle"
+           /\ HostStep(c, "get", 0)
 
 Next == \/ Effect \/ Exit
         \/ \E c \in Ctxs :
@@ -227,7 +247,9 @@ PointerClear ==
   /\ pc.m = "run" => \A c \in Ctxs : ctx[c].ptr <=> c = pc.c
 \* recovery: whatever errors the history contained, every context is in the state of its error-free twin,
 \* so every later event (guard, effects, outcome, result, projection) is the same as without the error
-Recovery ==
+Recovery == pc.m = "idle" => \A c \in Ctxs : ctx[c] = twin[c]
+\* spelled out (checked in the small configuration): same guards, effects, outcomes, results, projection
+RecoveryBehaviour ==
   pc.m = "idle" =>
     \A c \in Ctxs : /\ Core(ctx[c]) = Core(twin[c])
                     /\ Observe(ctx[c]) = Observe(twin[c])
